@@ -9,7 +9,7 @@ import re
 
 from ..astutil import (call_name, calls_in, walk_no_nested, params_of, kw,
                        is_const, single_defs, subst)
-from ..cfg import cfg_of, expr_owner_node, facts_at
+from ..cfg import cfg_of, expr_owner_node, facts_at, decompose, fact_key
 from ..loader import Program, AnalysisError, unparse
 from ..report import Check
 from ..shape import Summaries, parse_expr
@@ -77,7 +77,31 @@ class Abs:
                     for (t_, p_) in decompose(x.test, w[id(x)] == 'body'):
                         fs.add(fact_key(t_, p_))
         cd = getattr(f, '_class', None)
-        if cd is not None and f.name in ('mutations', 'global_mutations'):
+        via_helper = False
+        if cd is not None and f.name not in ('mutations', 'global_mutations',
+                                             'filter') and len(
+                                                 params_of(f)) > 1:
+            # a private helper of the class that is only ever called with
+            # the node the protocol method received
+            sites = []
+            for mn in ('mutations', 'global_mutations'):
+                cf = m.funcs.get(f'{cd.name}.{mn}')
+                if cf is None:
+                    continue
+                for c_ in ast.walk(cf):
+                    if isinstance(c_, ast.Call) and isinstance(
+                            c_.func, ast.Attribute) and \
+                            c_.func.attr == f.name and isinstance(
+                                c_.func.value, ast.Name) and \
+                            c_.func.value.id == 'self':
+                        sites.append((cf, c_))
+            via_helper = bool(sites) and all(
+                c_.args and isinstance(c_.args[0], ast.Name)
+                and len(params_of(cf)) > 1
+                and c_.args[0].id == params_of(cf)[1]
+                for (cf, c_) in sites)
+        if cd is not None and (f.name in ('mutations', 'global_mutations')
+                               or via_helper):
             fq = f'{cd.name}.filter'
             if fq in m.funcs:
                 filt = m.funcs[fq]
@@ -116,11 +140,34 @@ class Abs:
             return out
 
         res = []
+        shadow = self.__dict__.setdefault('_shadow', {})
         for x in ast.walk(f):
             if isinstance(x, ast.If) and x.orelse:
                 common = defs(x.body) & defs(x.orelse)
                 if len(common) >= 2:
                     res.append(x)
+            elif isinstance(x, ast.If) and not x.orelse:
+                # "a = d1; b = d2; if c: a = ...; b = ..." - the branch
+                # overrides defaults set before it: in the world where the
+                # branch is taken the defaults are shadowed
+                inb = defs(x.body)
+                par = getattr(x, '_parent', None)
+                blk = None
+                for fld in ('body', 'orelse', 'finalbody'):
+                    b_ = getattr(par, fld, None)
+                    if isinstance(b_, list) and x in b_:
+                        blk = b_
+                if blk is None:
+                    continue
+                before = blk[:blk.index(x)]
+                sh = [st for st in before if isinstance(st, ast.Assign)
+                      and any(isinstance(t, ast.Name) and t.id in inb
+                              for t in st.targets)]
+                names = {t.id for st in sh for t in st.targets
+                         if isinstance(t, ast.Name)}
+                if len(names) >= 2:
+                    res.append(x)
+                    shadow[id(x)] = sh
         cache[key] = res[:3]
         return cache[key]
 
@@ -129,6 +176,10 @@ class Abs:
         w = self.__dict__.get('_world')
         if not w:
             return False
+        # defaults shadowed by a taken else-less branch
+        for iid, sh in self.__dict__.get('_shadow', {}).items():
+            if w.get(iid) == 'body' and any(node is st for st in sh):
+                return True
         cur = node
         par = getattr(cur, '_parent', None)
         while par is not None:
@@ -198,7 +249,14 @@ class Abs:
         if isinstance(e, ast.Name):
             if e.id in env:
                 return env[e.id]
-            return self.name_kind(e, m, f, env, depth)
+            k = self.name_kind(e, m, f, env, depth)
+            if k[0] == 'text' and len(k) > 2 and not k[2] and f is not None:
+                # a dominating emptiness test makes the text non-empty
+                fs = facts_at(f, e)
+                if (f"{e.id} != ''", True) in fs or (
+                        f"{e.id} == ''", False) in fs or (e.id, True) in fs:
+                    k = (k[0], k[1], True) + tuple(k[3:])
+            return k
         if isinstance(e, ast.Tuple):
             ks = [self.kind(x, m, f, env, depth + 1) for x in e.elts]
             for k in ks:
@@ -409,6 +467,9 @@ class Abs:
                 return ('text', ca, a[2] and b[2], None)
             if {ca, cb} <= {'BITS', 'FRAG'}:
                 return ('text', 'FRAG', a[2] and b[2], None)
+            if {ca, cb} <= {'BITS', 'FRAG', 'TOK', 'VERB'} and a[2] and b[2]:
+                # each is a single non-empty token
+                return ('text', 'TOK', True, None)
             return ('text', 'MIX', a[2] and b[2], None)
         if a[0] == 'int' and b[0] == 'int':
             return a
@@ -425,6 +486,10 @@ class Abs:
         for x, y in ((a, b), (b, a)):
             if x[0] == 'list' and x[1] == ('node', ) and y[0] in (
                     'node', 'nodes'):
+                return ('nodes', )
+            if x[0] == 'pytuple' and x[1] and all(
+                    z == ('node', ) for z in x[1]) and y[0] in ('node',
+                                                                 'nodes'):
                 return ('nodes', )
             if x[0] == 'nodes' and y[0] in ('node', 'nodes'):
                 return ('nodes', )
@@ -497,6 +562,10 @@ class Abs:
         """parts: ('const', s) | ('k', kind)"""
         flat = []
         for p in parts:
+            if p[0] != 'const' and p[1][0] == 'text' and len(
+                    p[1]) > 3 and isinstance(p[1][3], str):
+                # a name bound to a constant string (quote = '|')
+                p = ('const', p[1][3])
             if p[0] == 'const':
                 flat.append(p)
             else:
@@ -662,6 +731,18 @@ class Abs:
                 k = self.elem_of(self.kind(d[1], m, f, env, depth + 1))
             elif d[0] == 'unpack':
                 k = self.kind(d[1], m, f, env, depth + 1)
+                if k[0] == 'unknown' and isinstance(
+                        d[1], ast.Subscript) and isinstance(
+                            d[1].value, ast.Name) and len(m.globals.get(
+                                d[1].value.id, [])) == 1 and isinstance(
+                                    m.globals[d[1].value.id][0], ast.Dict):
+                    # a, b = TABLE[key]: join over the rows of the table
+                    acc_ = None
+                    for row in m.globals[d[1].value.id][0].values:
+                        kk = self.kind(row, m, None, {}, depth + 1)
+                        acc_ = kk if acc_ is None else self.join(acc_, kk)
+                    if acc_ is not None:
+                        k = acc_
                 if k[0] == 'pytuple' and d[2] < len(k[1]):
                     k = k[1][d[2]]
                 elif k[0] == 'node':
@@ -678,9 +759,33 @@ class Abs:
                         self.kind(it.args[0], m, f, env, depth + 1))
                 else:
                     k = None
+                    # for key, value in <dict literal>.items()
+                    if isinstance(it, ast.Call) and isinstance(
+                            it.func, ast.Attribute) and \
+                            it.func.attr == 'items' and not it.args:
+                        dv = it.func.value
+                        dl = None
+                        if isinstance(dv, ast.Dict):
+                            dl = dv
+                        elif isinstance(dv, ast.Name):
+                            cands_ = [st.value for st in ast.walk(f)
+                                      if isinstance(st, ast.Assign)
+                                      and any(isinstance(t, ast.Name)
+                                              and t.id == dv.id
+                                              for t in st.targets)]
+                            if not cands_ and len(m.globals.get(
+                                    dv.id, [])) == 1:
+                                cands_ = m.globals[dv.id]
+                            if len(cands_) == 1 and isinstance(cands_[0],
+                                                               ast.Dict):
+                                dl = cands_[0]
+                        if dl is not None and d[2] in (0, 1):
+                            for x_ in (dl.keys if d[2] == 0 else dl.values):
+                                kk = self.kind(x_, m, f, env, depth + 1)
+                                k = kk if k is None else self.join(k, kk)
                     try:
                         from ..astutil import module_const
-                        tabv = module_const(m, it)
+                        tabv = module_const(m, it) if k is None else None
                     except ValueError:
                         tabv = None
                     if isinstance(tabv, (tuple, list)) and tabv and all(
@@ -822,6 +927,16 @@ class Abs:
                         return ('text', 'FRAG-OF-' + recv[1] if recv[1]
                                 != 'FRAG' else 'FRAG', ne, None)
                     return ('text', 'REPL-' + recv[1], False, None)
+                if a == 'replace' and len(e.args) == 2:
+                    ks = [self.kind(x, m, f, env, depth + 1) for x in e.args]
+                    if recv[1] in ('FRAG', 'VERB') and all(
+                            k[0] == 'text' and k[1] in ('FRAG', 'BITS')
+                            for k in ks):
+                        # token-safe text replaced by token-safe text:
+                        # delimiters and quoting are untouched, the result
+                        # is one token unless it is empty
+                        return ('text', 'FRAG' if recv[1] == 'FRAG'
+                                else 'VERBMOD', False, None)
                 if a == 'format':
                     ks = [self.kind(x, m, f, env, depth + 1)
                           for x in e.args]
@@ -843,6 +958,18 @@ class Abs:
                     return ('unknown', 'format on non-constant template')
                 if a in ('lower', 'upper'):
                     return recv
+                if a in ('rjust', 'ljust', 'zfill', 'center') and e.args:
+                    # padding with a constant token-safe character keeps the
+                    # class (BITS padded with '0'/'1' stay BITS)
+                    fill = e.args[1] if len(e.args) > 1 else None
+                    fc = fill.value if isinstance(
+                        fill, ast.Constant) else ('0' if a == 'zfill'
+                                                  else ' ')
+                    if recv[1] == 'BITS' and fc in ('0', '1'):
+                        return ('text', 'BITS', recv[2], None)
+                    if recv[1] in ('BITS', 'FRAG') and isinstance(
+                            fc, str) and all(c in SAFE for c in fc):
+                        return ('text', 'FRAG', recv[2], None)
                 if a in ('startswith', 'endswith', 'isdigit'):
                     return ('int', )
                 if a in ('rfind', 'find', 'index', 'count'):
@@ -1171,7 +1298,7 @@ def rule_r3(chk, prog, ab):
                         cls, ne = k[1], k[2]
                         if cls in ('TOK', 'VERB'):
                             ok = True
-                        elif cls in ('FRAG', 'BITS'):
+                        elif cls in ('FRAG', 'BITS', 'VERBMOD'):
                             ok = bool(ne)
                             msg = ('the text may be empty: an empty leaf is '
                                    'not a token and is not written at all')
@@ -1330,6 +1457,21 @@ def rule_r4(chk, prog, ab):
                                              and r.value.value is None)]
     ok = bool(rets)
     for r in rets:
+        v_ = r.value
+        if isinstance(v_, ast.IfExp):
+            # return None if is_var(res) else res  (either orientation)
+            arms = [(v_.body, True), (v_.orelse, False)]
+            good = True
+            for arm, pol_ in arms:
+                if is_const(arm) and arm.value is None:
+                    continue
+                fs_ = {fact_key(x_, p_ if pol_ else not p_)
+                       for (x_, p_) in decompose(v_.test, True)} if pol_ \
+                    else {fact_key(x_, p_) for (x_, p_) in decompose(
+                        v_.test, False)}
+                good = good and (f'is_var({unparse(arm)})', False) in fs_
+            ok = ok and good
+            continue
         facts = facts_at(ds, r.value)
         ok = ok and (f'is_var({unparse(r.value)})', False) in facts
     chk.check('C15.R4', 'smtlib.derive_symbol', 'returns only symbols that '
